@@ -17,6 +17,7 @@ pub(crate) fn all() -> Vec<Model> {
     cursor_two_rewinders(&mut v);
     frontier_models(&mut v);
     timestamp_models(&mut v);
+    protocol_models(&mut v);
     dependency_models(&mut v);
     wait_models(&mut v);
     v
@@ -350,6 +351,368 @@ fn timestamp_models(v: &mut Vec<Model>) {
                 }
             }),
         });
+    }
+}
+
+// ------------------------------------------------------------------------------------------------
+// C15.4 the validation / rewind / finality protocol on a three-transaction dependency chain
+// ------------------------------------------------------------------------------------------------
+//
+// tx1 reads what tx0 wrote, tx2 reads what tx1 wrote (one multi-version entry per writer, behind
+// its own lock like a DashMap shard). The worker-side protocol around the production
+// `SchedulerContext` is re-stated from scheduler.rs (`next`, `validate`, the end of
+// `execute_task`, `lock_finality_candidate` + the finality loop's carried lower bound): claims are
+// advisory, the per-transaction lock and status decide, a validation takes its timestamp before
+// the scan, a failed validation marks the writer's entry as an estimate and rewinds to i+1, a
+// re-execution either rewinds to i (new write location) or validates itself. Verdicts are *real*
+// (computed from the entries), except that tx0's validation held at the start fails (its unseen
+// predecessor changed). Oracle: a transaction is never made final on a read of a superseded
+// incarnation of its predecessor - "a validation that predates a covering rewind never makes its
+// transaction eligible".
+
+#[derive(Clone, Copy, Debug, PartialEq, Eq)]
+enum Cs {
+    Executed,
+    Validating,
+    Unconfirmed,
+    Conflict,
+    Final,
+}
+
+struct PTx {
+    status: Cs,
+    incarnation: usize,
+    /// incarnation of the predecessor's entry this incarnation read
+    read_inc: usize,
+}
+
+#[derive(Clone, Copy)]
+struct Entry {
+    incarnation: usize,
+    estimate: bool,
+}
+
+#[derive(Clone, Copy, Debug, PartialEq, Eq)]
+enum POp {
+    /// `next()` + `validate()`: claim an index, Executed|Unconfirmed -> Validating, validate
+    ClaimValidate,
+    /// `next()` only: the claimer is preempted before it takes the transaction lock
+    ClaimOnly,
+    /// re-execute transaction i (must be in Conflict) keeping its write set: validates itself
+    Reexec(usize),
+    /// re-execute transaction i (must be in Conflict) with a new write location: rewind to i
+    ReexecNewWrite(usize),
+}
+
+struct Proto {
+    ctx: SchedulerContext,
+    tx: [Mutex<PTx>; 3],
+    /// multi-version entries of the writers tx0, tx1 (tx2's is never read)
+    mv: [Mutex<Entry>; 2],
+}
+
+impl Proto {
+    const N: usize = 3;
+
+    fn verdict(&self, i: usize, t: &PTx, fail0: bool) -> bool {
+        if i == 0 {
+            return !fail0;
+        }
+        let e = *self.mv[i - 1].lock().unwrap();
+        !e.estimate && e.incarnation == t.read_inc
+    }
+
+    /// `validate()` for a transaction whose status was set to Validating by the caller's claim
+    fn validate(&self, i: usize, fail0: bool) {
+        let mut t = self.tx[i].lock().unwrap();
+        if t.status != Cs::Validating {
+            return;
+        }
+        let ts = self.ctx.logical_timestamp();
+        let ok = self.verdict(i, &t, fail0);
+        if ok {
+            self.ctx.unconfirmed(i, ts);
+            t.status = Cs::Unconfirmed;
+        } else {
+            if i < 2 {
+                self.mv[i].lock().unwrap().estimate = true;
+            }
+            self.ctx.rewind_validation_to(i + 1);
+            t.status = Cs::Conflict;
+        }
+    }
+
+    fn claim(&self) -> Option<usize> {
+        self.ctx.next_validation_idx(Self::N)
+    }
+
+    fn claim_validate(&self) -> bool {
+        let Some(i) = self.claim() else { return false };
+        {
+            let mut t = self.tx[i].lock().unwrap();
+            match t.status {
+                Cs::Executed | Cs::Unconfirmed => t.status = Cs::Validating,
+                _ => return true,
+            }
+        }
+        self.validate(i, false);
+        true
+    }
+
+    /// `execution_task` + `execute_task` for a transaction in Conflict
+    fn reexec(&self, i: usize, new_write: bool) -> bool {
+        let mut t = self.tx[i].lock().unwrap();
+        if t.status != Cs::Conflict {
+            return false;
+        }
+        t.incarnation += 1;
+        let mut blocked = false;
+        if i > 0 {
+            let e = *self.mv[i - 1].lock().unwrap();
+            blocked = e.estimate;
+            t.read_inc = e.incarnation;
+        }
+        if blocked {
+            // read an estimate: the attempt is a conflict again (its old entry stays an estimate)
+            self.ctx.executed(i);
+            self.ctx.rewind_validation_to(i + 1);
+            return true;
+        }
+        if i < 2 {
+            *self.mv[i].lock().unwrap() = Entry { incarnation: t.incarnation, estimate: false };
+        }
+        t.status = Cs::Executed;
+        self.ctx.executed(i);
+        if new_write {
+            self.ctx.rewind_validation_to(i);
+        } else {
+            t.status = Cs::Validating;
+            drop(t);
+            self.validate(i, false);
+        }
+        true
+    }
+
+    fn apply(&self, op: POp) -> bool {
+        match op {
+            POp::ClaimValidate => self.claim_validate(),
+            POp::ClaimOnly => self.claim().is_some(),
+            POp::Reexec(i) => self.reexec(i, false),
+            POp::ReexecNewWrite(i) => self.reexec(i, true),
+        }
+    }
+
+    /// one pass of the finality loop from `idx` with the carried lower bound; returns the new pair
+    fn finality_pass(&self, mut idx: usize, mut lower: usize, final_inc: &mut [usize; 3]) -> (usize, usize) {
+        while idx < Self::N {
+            // lock_finality_candidate(idx, lower)
+            if idx >= self.ctx.validation_idx() {
+                break;
+            }
+            let mut t = self.tx[idx].lock().unwrap();
+            if t.status != Cs::Unconfirmed {
+                break;
+            }
+            let effective = lower.max(self.ctx.lower_timestamp(idx));
+            if self.ctx.unconfirmed_timestamp(idx) <= effective {
+                break;
+            }
+            lower = effective;
+            t.status = Cs::Final;
+            final_inc[idx] = t.incarnation;
+            if idx > 0 {
+                assert_eq!(
+                    t.read_inc,
+                    final_inc[idx - 1],
+                    "tx {idx} became final on a read of incarnation {} of tx {}, whose final incarnation is {} (its validation predates the rewind that covers it)",
+                    t.read_inc,
+                    idx - 1,
+                    final_inc[idx - 1]
+                );
+            }
+            drop(t);
+            self.ctx.publish_finality(idx + 1);
+            idx += 1;
+        }
+        (idx, lower)
+    }
+}
+
+fn proto_new() -> Proto {
+    let ctx = SchedulerContext::new(3);
+    for i in 0..3 {
+        ctx.executed(i);
+    }
+    // tx0 and tx2 are claimed and Validating (held by the script thread resp. the validator), tx1
+    // has been validated
+    assert_eq!(ctx.next_validation_idx(3), Some(0));
+    assert_eq!(ctx.next_validation_idx(3), Some(1));
+    let ts = ctx.logical_timestamp();
+    ctx.unconfirmed(1, ts);
+    assert_eq!(ctx.next_validation_idx(3), Some(2));
+    Proto {
+        ctx,
+        tx: [
+            Mutex::new(PTx { status: Cs::Validating, incarnation: 1, read_inc: 0 }),
+            Mutex::new(PTx { status: Cs::Unconfirmed, incarnation: 1, read_inc: 1 }),
+            Mutex::new(PTx { status: Cs::Validating, incarnation: 1, read_inc: 1 }),
+        ],
+        mv: [Mutex::new(Entry { incarnation: 1, estimate: false }), Mutex::new(Entry { incarnation: 1, estimate: false })],
+    }
+}
+
+fn pop_label(s: &[POp]) -> String {
+    s.iter()
+        .map(|o| match o {
+            POp::ClaimValidate => "cv".to_string(),
+            POp::ClaimOnly => "c".to_string(),
+            POp::Reexec(i) => format!("x{i}"),
+            POp::ReexecNewWrite(i) => format!("n{i}"),
+        })
+        .collect::<Vec<_>>()
+        .join(",")
+}
+
+/// All scripts of length `len` in which every step does something when the script thread runs
+/// alone (sequential simulation on the same production objects, outside loom's exploration: the
+/// cells are created inside a throw-away loom model).
+fn proto_scripts(len: usize) -> Vec<Vec<POp>> {
+    let alphabet = [
+        POp::ClaimValidate,
+        POp::ClaimOnly,
+        POp::Reexec(0),
+        POp::ReexecNewWrite(0),
+        POp::Reexec(1),
+        POp::ReexecNewWrite(1),
+        POp::Reexec(2),
+    ];
+    let mut all: Vec<Vec<POp>> = vec![vec![]];
+    for _ in 0..len {
+        let mut next = Vec::new();
+        for s in &all {
+            for op in alphabet {
+                let mut s2 = s.clone();
+                s2.push(op);
+                next.push(s2);
+            }
+        }
+        all = next;
+    }
+    let mut keep = Vec::new();
+    for s in all {
+        let ok = std::sync::Arc::new(std::sync::atomic::AtomicBool::new(false));
+        let (ok2, s2) = (ok.clone(), s.clone());
+        let mut b = loom::model::Builder::new();
+        b.log = false;
+        b.check(move || {
+            let p = proto_new();
+            p.validate(0, true);
+            let mut effective = true;
+            let mut reexecs = 0;
+            for &op in &s2 {
+                if !p.apply(op) {
+                    effective = false;
+                    break;
+                }
+                if matches!(op, POp::Reexec(_) | POp::ReexecNewWrite(_)) {
+                    reexecs += 1;
+                }
+            }
+            ok2.store(effective && reexecs >= 1, std::sync::atomic::Ordering::SeqCst);
+        });
+        if ok.load(std::sync::atomic::Ordering::SeqCst) {
+            keep.push(s);
+        }
+    }
+    keep
+}
+
+fn parse_pops(label: &str) -> Option<Vec<POp>> {
+    label
+        .split(',')
+        .map(|t| match t {
+            "cv" => Some(POp::ClaimValidate),
+            "c" => Some(POp::ClaimOnly),
+            "x0" => Some(POp::Reexec(0)),
+            "x1" => Some(POp::Reexec(1)),
+            "x2" => Some(POp::Reexec(2)),
+            "n0" => Some(POp::ReexecNewWrite(0)),
+            "n1" => Some(POp::ReexecNewWrite(1)),
+            _ => None,
+        })
+        .collect()
+}
+
+/// Look a model up by id without enumerating the protocol scripts (their ids carry the script).
+pub(crate) fn find(id: &str) -> Option<Model> {
+    if let Some(rest) = id.strip_prefix("c15-protocol/") {
+        let (len, label) = rest.split_once('/')?;
+        let script = parse_pops(label)?;
+        return Some(protocol_model(len.strip_prefix("len")?.parse().ok()?, script));
+    }
+    let mut v = Vec::new();
+    cursor_models(&mut v);
+    cursor_two_rewinders(&mut v);
+    frontier_models(&mut v);
+    timestamp_models(&mut v);
+    dependency_models(&mut v);
+    wait_models(&mut v);
+    v.into_iter().find(|m| m.id == id)
+}
+
+fn protocol_models(v: &mut Vec<Model>) {
+    for len in [3usize, 4, 5] {
+        for script in proto_scripts(len) {
+            v.push(protocol_model(len, script));
+        }
+    }
+}
+
+fn protocol_model(len: usize, script: Vec<POp>) -> Model {
+    let label = pop_label(&script);
+    {
+        {
+            Model {
+                id: format!("c15-protocol/len{len}/{label}"),
+                property: "C15",
+                threads: 4,
+                describe: format!(
+                    "three-transaction chain: the script thread fails the validation of tx0 it holds, then runs [{label}] (cv = claim+validate, c = claim only, xI = re-execute I and self-validate, nI = re-execute I with a new write location); a validator holds a claim on tx2; the finality thread applies the production eligibility test with the carried lower bound; no transaction may become final on a superseded read"
+                ),
+                run: Box::new(move || {
+                    let p = Arc::new(proto_new());
+                    let script = script.clone();
+                    let r = {
+                        let p = p.clone();
+                        thread::spawn(move || {
+                            p.validate(0, true);
+                            for op in script {
+                                p.apply(op);
+                            }
+                        })
+                    };
+                    let val = {
+                        let p = p.clone();
+                        thread::spawn(move || p.validate(2, false))
+                    };
+                    let fin = {
+                        let p = p.clone();
+                        thread::spawn(move || {
+                            let mut final_inc = [0usize; 3];
+                            let (i, l) = p.finality_pass(0, 0, &mut final_inc);
+                            thread::yield_now();
+                            let (i, l) = p.finality_pass(i, l, &mut final_inc);
+                            (i, l, final_inc)
+                        })
+                    };
+                    r.join().unwrap();
+                    val.join().unwrap();
+                    let (i, l, mut final_inc) = fin.join().unwrap();
+                    // whatever is eligible once everything has settled
+                    p.finality_pass(i, l, &mut final_inc);
+                }),
+            }
+        }
     }
 }
 
